@@ -130,8 +130,10 @@ impl<'a> CertificateFetcher<'a> {
                 ProtocolError::Parse("Certificate BEGIN marker not found".to_string())
             })?;
 
-        let cert_end = response
+        // The END marker that closes this block: the first one after the BEGIN marker
+        let cert_end = response[cert_start..]
             .find("-----END CERTIFICATE-----")
+            .map(|pos| cert_start + pos)
             .ok_or_else(|| ProtocolError::Parse("Certificate END marker not found".to_string()))?;
 
         // Include the END marker in the extraction
